@@ -7,10 +7,19 @@
 
 use std::fmt::Debug;
 use std::panic::AssertUnwindSafe;
+#[cfg(not(feature = "verif_hooks"))]
 use std::sync::atomic::AtomicU8;
+#[cfg(feature = "verif_hooks")]
+use crate::verif::atomic::AtomicU8;
+#[cfg(not(feature = "verif_hooks"))]
 use std::sync::atomic::AtomicUsize;
+#[cfg(feature = "verif_hooks")]
+use crate::verif::atomic::AtomicUsize;
 use std::sync::Arc;
+#[cfg(not(feature = "verif_hooks"))]
 use std::sync::Mutex;
+#[cfg(feature = "verif_hooks")]
+use crate::verif::sync::Mutex;
 
 use futures::FutureExt;
 use futures::TryFutureExt;
